@@ -18,14 +18,14 @@ func vAbs(x int) int {
 	return x
 }
 
-//verif: mode=bv
+// verif: mode=bv
 func VH_C20_IsPowerOfTwo() {
 	n := vNondetInt("n")
 	vAssert("C20.ispow2.iff", IsPowerOfTwo(n) == vSpecPow2(n))
 	vReach("C20.ispow2.end")
 }
 
-//verif: mode=bv
+// verif: mode=bv
 func VH_C20_Ceil() {
 	n := vNondetInt("n")
 	const top = 1 << 62
@@ -48,7 +48,7 @@ func VH_C20_Ceil() {
 	vReach("C20.ceil.end")
 }
 
-//verif: mode=bv
+// verif: mode=bv
 func VH_C20_Floor() {
 	n := vNondetInt("n")
 	r := FloorToPowerOfTwo(n)
@@ -63,7 +63,7 @@ func VH_C20_Floor() {
 	vReach("C20.floor.end")
 }
 
-//verif: mode=bv
+// verif: mode=bv
 func VH_C20_Closest() {
 	n := vNondetInt("n")
 	const top = 1 << 62
